@@ -6,6 +6,7 @@ cd "$(dirname "$0")"
 export PRODUCTMD_REPO="${PRODUCTMD_REPO:-/repo}"
 /venv/bin/python tools/translate.py
 cd lean
+set -o pipefail
 lake build ProductMD pmdriver 2>&1 | tail -5
 test -x .lake/build/bin/pmdriver
 echo "setup ok"
